@@ -109,5 +109,17 @@ func msgUnpackCorr(c *Ctx, stream string, b []byte) {
 			return hx(w)
 		})
 		c.OpK(stream, "msg.packc "+arg, rc, len(b) > 12, "msg-packc")
+		// and what Len() predicts for the decoded message, without and with compression
+		ln := guard(func() string {
+			var m dns.Msg
+			if err := m.Unpack(b); err != nil {
+				return "err"
+			}
+			m.Compress = false
+			l0 := m.Len()
+			m.Compress = true
+			return fmt.Sprintf("%d %d", l0, m.Len())
+		})
+		c.OpK(stream, "msg.len "+arg, ln, len(b) > 12, "msg-len")
 	}
 }
